@@ -706,3 +706,115 @@ def rule_idxguard(ctx):
     if n < 1:
         raise AnalysisError("R-IDXGUARD: no constant index behind a length test found (print_clauses has one on the pinned tree)")
     return res
+
+
+def rule_negrange(ctx):
+    """R-NEGRANGE: a value reinterpreted from an unsigned integer is negated only below 2^(n-1)"""
+    fx = ctx.fx
+    res = RuleResult("R-NEGRANGE", "overflow assertions are trusted as a class (they exist in debug builds only and almost all of them guard counters), "
+                     "with one exception that is decided: the negation `-(u as iN)` of a value cast from an unsigned integer of the same width. "
+                     "The cast maps 2^(N-1) to iN::MIN, whose negation overflows - a panic of the compiler in the build `cargo build` produces. "
+                     "Every such negation must be dominated by a comparison that bounds the unsigned value strictly below 2^(N-1) (constants "
+                     "read through `unsigned_abs`/`abs` of a constant); a bound of 2^(N-1) itself - the off-by-one of `u <= iN::MIN.unsigned_abs()` "
+                     "- or no bound at all is reported")
+    WIDTH = {"u64": 64, "usize": 64, "u32": 32, "u16": 16, "u8": 8, "u128": 128}
+    SIGNED = {"i64": 64, "isize": 64, "i32": 32, "i16": 16, "i8": 8, "i128": 128}
+    n_neg = 0
+    n_cast = 0
+    for k, f in sorted(fx.fns.items()):
+        if f["crate"] in {"scc_core_macros", "axcut_macros", "scc_macro_utils", "axcut_examples"} or "{promoted" in k:
+            continue
+        fn = None
+        for bi, b in enumerate(f["blocks"]):
+            t = b["term"]
+            if t["k"] != "assert" or "OverflowNeg" not in str(t.get("msg")):
+                continue
+            n_neg += 1
+            fn = fn or Fn(f)
+            if bi not in fn.reach:
+                continue
+            # the value about to be negated: the local compared with MIN in this block
+            x = None
+            for s in b["stmts"]:
+                if s["k"] == "assign" and s["rv"]["k"] == "binop" and s["rv"]["op"] == "Eq":
+                    for o in (s["rv"]["a"], s["rv"]["b"]):
+                        if o.get("pl") and not o["pl"]["p"]:
+                            x = o["pl"]["l"]
+            if x is None:
+                continue
+
+            def base(l, depth=0):
+                """the local a chain of plain copies starts from"""
+                for d in fn.defs().get(l, []):
+                    if d["kind"] == "assign" and d["rv"]["k"] == "use" and d["rv"]["op"].get("pl") and not d["rv"]["op"]["pl"]["p"] and depth < 6:
+                        return base(d["rv"]["op"]["pl"]["l"], depth + 1)
+                return l
+            src = None
+            for d in fn.defs().get(base(x), []):
+                if d["kind"] == "assign" and d["rv"]["k"] == "cast" and d["rv"].get("kind") == "IntToInt" and d["rv"]["op"].get("pl"):
+                    u = d["rv"]["op"]["pl"]["l"]
+                    uty, xty = f["locals"][u]["ty"], f["locals"][base(x)]["ty"]
+                    if uty in WIDTH and xty in SIGNED and WIDTH[uty] == SIGNED[xty]:
+                        src = (base(u), WIDTH[uty])
+            if src is None:
+                continue
+            n_cast += 1
+            u, width = src
+            limit = 2 ** (width - 1)
+
+            def const_of(o, depth=0):
+                if o.get("k") == "const" and isinstance(o.get("val"), int):
+                    return o["val"]
+                if o.get("pl") and not o["pl"]["p"] and depth < 4:
+                    for d in fn.defs().get(o["pl"]["l"], []):
+                        if d["kind"] == "assign" and d["rv"]["k"] in ("use", "cast") and isinstance(d["rv"].get("op"), dict):
+                            return const_of(d["rv"]["op"], depth + 1)
+                        if d["kind"] == "call" and d["term"].get("callee_name") in ("unsigned_abs", "abs") and d["term"]["args"]:
+                            v = const_of(d["term"]["args"][0], depth + 1)
+                            return abs(v) if v is not None else None
+                return None
+            bound = None        # the smallest upper bound (inclusive) known for u at the negation
+            for gi in sorted(fn.reach):
+                g = f["blocks"][gi]
+                if g["term"]["k"] != "switch" or not fn.dominates(gi, bi) or gi == bi:
+                    continue
+                dl = (g["term"]["discr"].get("pl") or {}).get("l")
+                cmp_ = None
+                for s in g["stmts"]:
+                    if s["k"] == "assign" and s["lhs"]["l"] == dl and s["rv"]["k"] == "binop" and s["rv"]["op"] in ("Le", "Lt", "Ge", "Gt"):
+                        cmp_ = s["rv"]
+                if cmp_ is None:
+                    continue
+                a, b_ = cmp_["a"], cmp_["b"]
+                a_is_u = a.get("pl") and not a["pl"]["p"] and base(a["pl"]["l"]) == u
+                b_is_u = b_.get("pl") and not b_["pl"]["p"] and base(b_["pl"]["l"]) == u
+                c = const_of(b_) if a_is_u else (const_of(a) if b_is_u else None)
+                if c is None:
+                    continue
+                # which way the branch towards the negation goes: `targets` holds the value 0 (false) on the pinned encoding
+                false_t = [tb for val, tb in g["term"]["targets"] if val == 0]
+                true_side = fn.dominates(g["term"]["otherwise"], bi) or g["term"]["otherwise"] == bi
+                false_side = any(fn.dominates(tb, bi) or tb == bi for tb in false_t)
+                if true_side == false_side:
+                    continue
+                op = cmp_["op"]
+                if b_is_u:      # c OP u  ==  u OP' c
+                    op = {"Le": "Ge", "Lt": "Gt", "Ge": "Le", "Gt": "Lt"}[op]
+                if not true_side:
+                    op = {"Le": "Gt", "Lt": "Ge", "Ge": "Lt", "Gt": "Le"}[op]
+                ub = c if op == "Le" else (c - 1 if op == "Lt" else None)
+                if ub is not None and (bound is None or ub < bound):
+                    bound = ub
+            ikey = "%s@neg-of-cast" % k.split("::{")[0]
+            if bound is not None and bound < limit:
+                res.inst(ikey, t["sp"]["file"], t["sp"]["line"], "ok", "the unsigned value is at most %d < 2^%d" % (bound, width - 1))
+            else:
+                res.inst(ikey, t["sp"]["file"], t["sp"]["line"], "violation")
+                res.violate(ikey, "%s negates a value cast from an unsigned %d-bit integer that %s: for 2^%d the cast yields the minimum and the negation "
+                            "overflows - the compiler panics (debug build) on that one input" %
+                            (k.split("::")[-1], width, ("can be as large as %d" % bound) if bound is not None else "is not bounded by a dominating comparison", width - 1),
+                            t["sp"]["file"], t["sp"]["line"])
+    res.inst("negations", "lang/fun/src/parser/fun.lalrpop", 1, "ok", "%d checked negations in the workspace, %d of a value cast from an unsigned integer" % (n_neg, n_cast), nontrivial=False)
+    if n_neg < 1:
+        raise AnalysisError("R-NEGRANGE: no checked negation found in the workspace (the literal rule of the grammar has one)")
+    return res
